@@ -74,15 +74,30 @@ def _verus(text, unit, gdir, jobs, rlimit, fname):
     if raw is None:
         shutil.rmtree(logdir, ignore_errors=True)
         t0 = time.time()
-        p = subprocess.run(cmd, capture_output=True, text=True, cwd=gdir)
+        # wall-clock guard: a query that Z3 does not give up on (seen once on a changed tree) must not hang the check
+        limit = int(os.environ.get('VERIF_VERUS_TIMEOUT', '1200'))
+        proc = subprocess.Popen(cmd, stdout=subprocess.PIPE, stderr=subprocess.PIPE, text=True, cwd=gdir, start_new_session=True)
+        try:
+            so, se = proc.communicate(timeout=limit)
+            rc = proc.returncode
+        except subprocess.TimeoutExpired:
+            import signal
+            try:
+                os.killpg(proc.pid, signal.SIGKILL)
+            except OSError:
+                pass
+            so, se = proc.communicate()
+            rc = 124
+            se = (se or '') + '\n' + json.dumps({'level': 'error', 'message': f'verus timed out after {limit} s (wall clock)', 'spans': [], 'rendered': f'error: verus timed out after {limit} s'})
         wall = time.time() - t0
         per = count_obligations(os.path.join(logdir, 'root.air'))
         shutil.rmtree(logdir, ignore_errors=True)
-        raw = {'stdout': p.stdout, 'stderr': p.stderr, 'returncode': p.returncode, 'wall_s': round(wall, 2),
+        raw = {'stdout': so, 'stderr': se, 'returncode': rc, 'wall_s': round(wall, 2),
                'obligations': per, 'cmd': ' '.join(cmd), 'cache_hit': False}
-        tmp = cfile + f'.tmp{os.getpid()}'
-        json.dump(raw, open(tmp, 'w'))
-        os.replace(tmp, cfile)
+        if rc != 124:       # a wall-clock timeout may be transient (machine load): never cached
+            tmp = cfile + f'.tmp{os.getpid()}'
+            json.dump(raw, open(tmp, 'w'))
+            os.replace(tmp, cfile)
         # prune
         olds = sorted((f for f in os.listdir(cdir)), key=lambda f: os.path.getmtime(os.path.join(cdir, f)))
         for f in olds[:-300]:
